@@ -220,7 +220,7 @@ def run_case(i, rng, rec, tier, state):
                           {"class": which, "axes": ax, "center": c, "exc": repr(e)})
     # history: the same object after a parameter or size assignment must still report the integrals of its *current*
     # parameters (hidden caches filled by the reads above must not survive an assignment)
-    if i % 2 == 0:
+    if (i // 4) % 2 == 0:
         names = {"Circle": ["radius", "area", "perimeter"], "Ellipse": ["a", "b", "area", "perimeter"],
                  "Sphere": ["radius", "diameter", "volume", "surface_area"], "Ellipsoid": ["a", "b", "c", "volume", "surface_area"]}[which]
         for _ in range(2):
